@@ -31,7 +31,7 @@ PENDING = {
 _B = "TLA+ specification model-checked with TLC; TLC-generated transitions replayed into the real crate (direction A) and recorded executions of the real crate validated by TLC against the specification (trace validation, direction B)"
 TECH = {p: _B for p in ("C01", "C02", "C03", "C05", "C07", "C09", "C10", "C11", "C12", "C13", "C18")}
 for _p in ("C01", "C07"):
-    TECH[_p] = _B + "; plus a symbolic one-step refinement check of the slot-level steps with Apalache (spec/MapRef.tla) and a TLAPS proof, for unbounded capacity, that the slot array with swap-remove refines the ideal key-value map (spec/MapProofKV.tla)"
+    TECH[_p] = _B + "; plus a symbolic one-step refinement check of the slot-level steps with Apalache (spec/MapRef.tla) and a TLAPS proof, for unbounded capacity, that the slot array with swap-remove refines the ideal key-value map and that retain keeps exactly the accepted pairs (spec/MapProofKV.tla, spec/MapProofRetain.tla)"
 for _p in ("C03", "C05"):
     TECH[_p] = _B + "; plus the representation invariant shown inductive with Apalache (capacities up to 32) and proved with TLAPS for unbounded capacity together with the refinement of the ideal key set by every slot-level step (spec/MapInd.tla, spec/MapProof.tla)"
 for _p in ("C13", "C18"):
@@ -70,7 +70,7 @@ def main():
         "engines": [
             {"name": "pairgraph", "path": "spec/PairSpec.tla + harness/src/pair.rs", "serves_properties": ["C06", "C08", "C14"],
              "kind_free_text": "TLC state graph of two containers with the read-only binary operations, replayed into the real crate"},
-            {"name": "symbolic", "path": "spec/MapRef.tla, spec/MapInd.tla, spec/MapDisj.tla (Apalache); spec/MapProof.tla, spec/MapProofKV.tla (TLAPS)", "serves_properties": ["C01", "C03", "C05", "C07", "C13", "C18"],
+            {"name": "symbolic", "path": "spec/MapRef.tla, spec/MapInd.tla, spec/MapDisj.tla (Apalache); spec/MapProof.tla, spec/MapProofKV.tla, spec/MapProofRetain.tla (TLAPS)", "serves_properties": ["C01", "C03", "C05", "C07", "C13", "C18"],
              "kind_free_text": "design-level strengthenings beyond TLC's capacities: one-step refinement of the dictionary from any well-formed state (capacities <= 24), inductive representation invariant (<= 32) and, by TLAPS for unbounded capacity, the invariant together with the refinement of the ideal key set / key-value map by every slot-level step, the disjoint-borrow stack algorithm for arbitrary states; run inside the named checks"},
             {"name": "micro", "path": "spec/MapMicro.tla + harness/src/micro.rs + harness/src/sweep.rs", "serves_properties": ["C04", "C08", "C14", "C17"],
              "kind_free_text": "callback-granular TLA+ model of slot memory (panic at every callback / every outcome of every key comparison), every behaviour replayed into the real crate"},
